@@ -55,7 +55,7 @@ theorem keyEqvTy_flatV : (t : KTy) → (a b : Val) → KeyEqvTy t a b → flatVT
   | .struct _ _, .struct _, .absent, h => by simp [KeyEqvTy] at h
   | .struct _ _, .num _, b, h | .struct _ _, .str _, b, h | .struct _ _, .list _, b, h | .struct _ _, .absent, b, h => by
     simp only [KeyEqvTy] at h; subst h; rfl
-  | .prim _, _, _, _ | .str, _, _, _ | .wstr, _, _, _ | .union _ _, _, _, _ | .enum _ _ _, _, _, _ | .seq _, _, _, _ | .arr _ _, _, _, _ => by simp [flatVTy]
+  | .prim _, _, _, _ | .str, _, _, _ | .wstr, _, _, _ | .union _ _ _, _, _, _ | .enum _ _ _, _, _, _ | .seq _, _, _, _ | .arr _ _, _, _, _ => by simp [flatVTy]
 end
 
 /-- **C11, non-key members are irrelevant**: values that agree on the key members (whatever their other members
@@ -174,7 +174,7 @@ theorem keyEqv_refl : (ms : KMs) → (a : List Val) → KeyEqv ms a a
 theorem keyEqvTy_refl : (t : KTy) → (a : Val) → KeyEqvTy t a a
   | .struct _ ms, .struct a => by simp only [KeyEqvTy]; exact keyEqv_refl ms a
   | .struct _ _, .num _ | .struct _ _, .str _ | .struct _ _, .list _ | .struct _ _, .absent => by simp [KeyEqvTy]
-  | .prim _, _ | .str, _ | .wstr, _ | .union _ _, _ | .enum _ _ _, _ | .seq _, _ | .arr _ _, _ => by simp [KeyEqvTy]
+  | .prim _, _ | .str, _ | .wstr, _ | .union _ _ _, _ | .enum _ _ _, _ | .seq _, _ | .arr _ _, _ => by simp [KeyEqvTy]
 end
 
 /-- the member at index `i` is optional and is not itself a key member (its type may be a structure with key members) -/
